@@ -1,4 +1,5 @@
 import SeqVerif.Proofs.SealCrash
+import SeqVerif.Proofs.LifecycleInv
 import SeqVerif.Extracted.C08
 /-!
 # C08 - sealing is all-or-nothing under crashes and I/O errors
@@ -56,6 +57,20 @@ the system calls (channel seal.syscalls) and from the hook points (seal.trace). 
 theorem c08_durable_before_visible (c : Cfg) (f : Facts) (p : Plan) (oi os : List Bool) :
     syncedBeforeRename (sealTrace c f p oi os).2 (fun _ => true) = true :=
   sealTrace_syncedBeforeRename c f p oi os
+
+/-- **C08 (a fraction can always be sealed again).**  Take any crash prefix of a seal (any write answers) that a
+restart replays as an active fraction - with whatever temporary files, `.sdocs` or (documents not re-sorted) `.index`
+the interrupted seal left.  That state is again a start state of sealing, so `c08_crash_safe`,
+`c08_originals_outlive_copy` and `c08_published_complete` hold for the second seal; and a second seal whose writes all
+succeed does succeed: opening the temporary files is `os.Create` (create or truncate - extracted, `c08_x_seal_order`)
+and cannot trip over the leftovers. -/
+theorem c08_reseal_after_crash (c : Cfg) (p p' : Plan) (oi os : List Bool) (fs0 : FileSet) (u : List Suffix)
+    (hd : ¬ Lifecycle.Del fs0) (h0 : Lifecycle.ShapeA c fs0) (pre : List Op)
+    (hp : pre <+: (sealTrace c srcFacts p oi os).2)
+    (ha : classify (applyOps pre ⟨fs0, u⟩).fs = .active) :
+    Start c (applyOps pre ⟨fs0, u⟩).fs ∧ (sealTrace c srcFacts p' [] []).1 = true := by
+  have hal := Lifecycle.seal_along c srcFacts p oi os fs0 u c08_x_generators_propagate hd h0
+  exact ⟨Lifecycle.sealShape_active_start c _ (((along_iff _ _ _ _).mp hal).1 pre hp) ha, sealTrace_nofault c srcFacts p'⟩
 
 /-- **C08 (a failed seal is not published), index output.**  If any `Seek`/`Write` that was issued on the index
 output got an error, `Seal` fails: `._index` is not renamed to `.index` and nothing is released. -/
@@ -133,7 +148,9 @@ theorem c08_x_direct_sites_propagate :
 /-- `frac.Seal`: create `._index`, skip the 16-byte header, write everything, `syncRename` to `.index`, sync the directory -/
 theorem c08_x_seal_order :
     sealCalls = ["os.Create", "indexFile.Seek", "writeSealedFraction", "syncRename", "util.MustSyncPath"] ∧
-      sealNames = ["os.Create f.BaseFileName + consts.IndexTmpFileSuffix", "syncRename f.BaseFileName + consts.IndexFileSuffix"] := by
+      sealNames = ["os.Create f.BaseFileName + consts.IndexTmpFileSuffix", "syncRename f.BaseFileName + consts.IndexFileSuffix"] ∧
+      -- both temporary files are opened with os.Create (O_CREATE|O_TRUNC, never O_EXCL): `Op.create` is total
+      indexTmpOpen = ["os.Create"] ∧ sdocsTmpOpen = ["os.Create"] := by
   decide
 
 /-- `syncRename`: fsync the file, then rename it -/
